@@ -399,6 +399,17 @@ impl<'tcx> Cx<'tcx> {
         let did = ldid.to_def_id();
         let body: &mir::Body<'tcx> = tcx.optimized_mir(did);
         let (file, lo, hi) = self.loc(body.span);
+        let (locals, blocks) = self.mir_parts(did, body);
+        let mut proms = vec![];
+        for pb in tcx.promoted_mir(did).iter() {
+            let (pl, pbk) = self.mir_parts(did, pb);
+            proms.push(Obj::new().raw("locals", arr(pl)).raw("blocks", arr(pbk)).done());
+        }
+        self.body_tail(did, body, file, lo, hi, locals, blocks, proms)
+    }
+
+    fn mir_parts(&self, did: DefId, body: &mir::Body<'tcx>) -> (Vec<String>, Vec<String>) {
+        let tcx = self.tcx;
 
         // local names
         let mut names: HashMap<usize, String> = HashMap::new();
@@ -598,6 +609,22 @@ impl<'tcx> Cx<'tcx> {
             );
         }
 
+        (locals, blocks)
+    }
+
+    #[allow(clippy::too_many_arguments)]
+    fn body_tail(
+        &self,
+        did: DefId,
+        body: &mir::Body<'tcx>,
+        file: String,
+        lo: usize,
+        hi: usize,
+        locals: Vec<String>,
+        blocks: Vec<String>,
+        proms: Vec<String>,
+    ) -> String {
+        let tcx = self.tcx;
         let kind = tcx.def_kind(did);
         let mut o = Obj::new()
             .s("key", &self.key(did))
@@ -646,7 +673,7 @@ impl<'tcx> Cx<'tcx> {
             o = o.raw("generics", arr(names));
         }
         o = o.s("ret_ty", &self.ty_s(body.local_decls[mir::RETURN_PLACE].ty));
-        o.raw("locals", arr(locals)).raw("blocks", arr(blocks)).done()
+        o.raw("locals", arr(locals)).raw("blocks", arr(blocks)).raw("promoted", arr(proms)).done()
     }
 
     fn items(&self) -> String {
